@@ -8,6 +8,7 @@ import sys
 import warnings
 from typing import Any, Callable
 
+from vf import logcfg
 from vf.sim import core, rotation, monitors
 from vf.sim.device import DeviceConfig, SimDevice
 
@@ -128,6 +129,7 @@ class Sim:
 
         monitors.install()
         rotation.new_case()
+        logcfg.set_debug(False)
         monitors.CURRENT = self
         self._old_impl_socket = impl.socket
         impl.socket = core.make_socket_shim(self.net)
@@ -310,7 +312,9 @@ class Sim:
                 asyncio._set_running_loop(running)  # noqa: SLF001
         else:
             cli = APIClient(address, port, password, **kw)
-        if rotation.decide("client_debug", (False, False, False, True)):
+        debug = rotation.decide("client_debug", (False, False, False, True))
+        logcfg.set_debug(bool(debug))   # the logger level at construction decides the client's debug flag, as in production; set_debug() below keeps them consistent
+        if debug:
             # every 4th client of the process runs with the library's debug flag on: the debug-only branches (extra logging, but also
             # control flow that differs, e.g. in the keep-alive sender) are part of the code under test
             cli.set_debug(True)
